@@ -340,16 +340,7 @@ func run(prop string) int {
 	if a.skipped > 0 {
 		caps = append(caps, fmt.Sprintf("internal deadline %v: %d tasks not run", cfg.Budget, a.skipped))
 	}
-	sort.Strings(a.samples)
-	if len(a.samples) > 14 {
-		// keep a spread
-		step := len(a.samples) / 14
-		var s []string
-		for i := 0; i < len(a.samples); i += step {
-			s = append(s, a.samples[i])
-		}
-		a.samples = s
-	}
+	a.samples = spread(a.samples)
 	samples := make([]interface{}, 0, len(a.samples))
 	for _, s := range a.samples {
 		samples = append(samples, s)
@@ -416,6 +407,30 @@ func run(prop string) int {
 	fmt.Fprintf(os.Stderr, "walmc: %d histories (depth completed %d), %d crash points, %d distinct images (%d torn), %d corruption cases, %d evaluations, %d violation signature(s), %.1fs, exhaustive=%v\n",
 		a.histories, depthDone, a.res.Points, a.res.Images, a.res.Mixed, a.res.Cases, a.res.Evals, rep.Count(), time.Since(start).Seconds(), exhaustive)
 	return code
+}
+
+// spread keeps a few crash samples and a few corruption samples.
+func spread(all []string) []string {
+	sort.Strings(all)
+	var crash, corr []string
+	for _, s := range all {
+		if strings.Contains(s, "; flip ") {
+			corr = append(corr, s)
+		} else {
+			crash = append(crash, s)
+		}
+	}
+	pick := func(l []string, n int) []string {
+		if len(l) <= n {
+			return l
+		}
+		var out []string
+		for i := 0; i < n; i++ {
+			out = append(out, l[i*len(l)/n])
+		}
+		return out
+	}
+	return append(pick(crash, 9), pick(corr, 6)...)
 }
 
 func intMap(m map[int]int) map[string]int {
